@@ -12,6 +12,8 @@ import XdslModel.Constraint
 import XdslModel.Affine
 import XdslModel.OpDef
 import XdslModel.StructEq
+import XdslModel.Names
+import XdslModel.Clone
 /-!
 Model registry for the driver: `MODEL <name>` selects a `(state, lineStep)` pair.
 A continuation-passing encoding is used because the state types differ.
@@ -36,6 +38,8 @@ def run? (name : String) : Option Runner :=
   | "affine" => some fun k => k Affine.lineStep ()
   | "op_def" => some fun k => k OpDef.lineStep {}
   | "struct_eq" => some fun k => k StructEq.lineStep ()
+  | "names" => some fun k => k Names.lineStep [{}]
+  | "clone" => some fun k => k Clone.lineStep {}
   | _ => none
 
 end Xdsl.Registry
